@@ -116,12 +116,14 @@ func provSubset(g *hx.Rng) []string {
 }
 
 func (r *R) genCreate(ctx sdk.Context, g *hx.Rng, have map[string]bool) string {
+	// names that extend one another: values of one feed must not leak into (or be trimmed by)
+	// a feed whose name is a prefix of it
 	name := "f1"
 	if have["f1"] {
-		name = "f2"
+		name = "f1x"
 	}
-	if have["f1"] && have["f2"] {
-		name = "f3"
+	if have["f1"] && have["f1x"] {
+		name = "f1xy"
 	}
 	switch g.Pick(30, 2, 1, 1) {
 	case 1:
